@@ -376,7 +376,7 @@ Definition do_reset (fl : flags) (inv : list N) (pol : N) (peer : N) (p : prefix
 Definition upd (p : prefix) (d : dest) (g : prefix -> dest) : prefix -> dest :=
   fun q => if pfx_eqb q p then d else g q.
 Definition add_key (p : prefix) (ks : list prefix) : list prefix :=
-  if existsb (pfx_eqb p) ks then ks else ks ++ [p].
+  if existsb (pfx_eqb p) ks then ks else p :: ks.
 
 (* every Source of [peer] that has a path in the table *)
 Definition srcs_of (s : st) (peer : N) : list (N * N) :=
